@@ -5,7 +5,10 @@ CFG = {
     "exe": "geomv_c02",
     "go_cmd": "c02",
     "stages": ["go:gen", "go:impl", "lean:judge"],
-    "theorems": [T + n for n in []],
+    "theorems": [T + n for n in ["C02_pointOnSegment_spec", "C02_rayIntersects_eq_crossHO", "C02_ring_onEdge_iff",
+                                 "C02_closed_walk_even", "C02_bbox_prefilter_sound", "C02_point", "C02_point_no_panic",
+                                 "C02_receivers_points", "C02_receivers_multiline", "C02_receivers_polygon"]],
+    "lean_dirs": ["C02"],
     "trusted_base": [
         "Lean 4.33.0 kernel; axioms of every theorem printed by #print axioms must be within {propext, Classical.choice, Quot.sound}",
         "model lean/GeomV/C02/Model.lean (exact Rat arithmetic, four-valued float division FQ, extended-rational Bounds) is tied to "
